@@ -5,7 +5,7 @@ set -u
 export GOPROXY=off GONOSUMDB='*' GOFLAGS=-mod=readonly GOTOOLCHAIN=auto GOWORK=off
 unset GOSUMDB
 out=$(mktemp)
-( cd /repo && go test -json -vet=off -count=1 -timeout 25m ./... ) > "$out" 2>/dev/null
+( cd "${REPO:-/repo}" && go test -json -vet=off -count=1 -timeout 25m ./... ) > "$out" 2>/dev/null
 python3 - "$out" <<'PY'
 import json,sys
 base=json.load(open('/root/.vp/BASELINE.json'))
